@@ -407,6 +407,10 @@ def vector_layer_merge_rule(ck, P):
 
 def rules(ck, P):
     merge_rule(ck, P)
+    # the PMTiles writer stores the (compressed) TileJSON at a fixed position behind the root directory: the root directory must end
+    # before it, or the document's first bytes are overwritten and the container no longer hands it back (shared with C01 / C04)
+    from . import wire as _wire
+    _wire.pm_layout_rules(ck, P)
     vector_layer_merge_rule(ck, P)
     vt_meta_guard_rule(ck, P)
     json_guard_rule(ck, P)
